@@ -37,6 +37,19 @@ def snap(o):
     return ("R", repr(o), repr(o.annotation), tuple(snap(s) for s in o.sources))
 
 
+class _Idx:
+    """an index-like object (has __index__) that is not an int"""
+
+    def __init__(self, i):
+        self.i = i
+
+    def __index__(self):
+        return self.i
+
+    def __repr__(self):
+        return "_Idx(%d)" % self.i
+
+
 class World:
     def __init__(self, case):
         from dyce import H, P
@@ -239,6 +252,9 @@ def run_op(w, op):
             c = [(o, cnt) for o, cnt in h.items()] or [(1, 1)]
             w.containers.append(c)
             return w.H(c)
+        if which == 6 and a[2] % 2:
+            # selectors that are index-like but not plain ints
+            return r.select(True, slice(None)) if a[2] % 4 == 1 else R.select_from_sources((_Idx(0), False), r)
         c = [h, h2]
         w.containers.append(c)
         return w.P(*c)
